@@ -7,6 +7,9 @@
           if (x := f()) is not None:            if not (x := f()):
       becomes `x = f()` followed by the test on `x`.
 
+    * a `while` loop that steps an index over a list (`i = a` / `while i < len(X): ...; i += 1`) becomes the `for` over
+      `range(a, len(X))`, and a `for` over `chain.from_iterable(E for v in S)` becomes the nested loops it abbreviates.
+
     Only positions where the rewrite is exact are touched: `while` tests (re-evaluated per iteration), operands
     after the first of and/or (conditionally evaluated), comprehensions and lambdas are left alone.  New nodes take
     the location of the statement they come from, so reports keep pointing at the original line. """
@@ -121,8 +124,107 @@ def _block(stmts: List[ast.stmt]) -> List[ast.stmt]:
     return out
 
 
+def _names(node: ast.AST, name: str) -> int:
+    return sum(1 for n in ast.walk(node) if isinstance(n, ast.Name) and n.id == name)
+
+
+def _while_as_for(func: ast.AST, prev: ast.stmt, loop: ast.stmt) -> Optional[ast.For]:
+    """ `i = A` / `while i < N: body; i += 1` is `for i in range(A, N): body` when the body neither moves `i` nor skips
+        the increment, N is a length the body does not change, and `i` is not looked at after the loop """
+    if not (isinstance(loop, ast.While) and not loop.orelse and isinstance(prev, ast.Assign) and len(prev.targets) == 1
+            and isinstance(prev.targets[0], ast.Name)):
+        return None
+    name = prev.targets[0].id
+    test = loop.test
+    if not (isinstance(test, ast.Compare) and len(test.ops) == 1 and isinstance(test.ops[0], ast.Lt)
+            and isinstance(test.left, ast.Name) and test.left.id == name):
+        return None
+    stop = test.comparators[0]
+    if not (isinstance(stop, ast.Call) and isinstance(stop.func, ast.Name) and stop.func.id == "len" and len(stop.args) == 1
+            and not stop.keywords):
+        return None
+    if not loop.body:
+        return None
+    last = loop.body[-1]
+    if not (isinstance(last, ast.AugAssign) and isinstance(last.op, ast.Add) and isinstance(last.target, ast.Name)
+            and last.target.id == name and isinstance(last.value, ast.Constant) and last.value.value == 1):
+        return None
+    body = loop.body[:-1]
+    if not body:
+        return None
+    seq = ast.unparse(stop.args[0])
+    for stmt in body:
+        for node in ast.walk(stmt):
+            if isinstance(node, (ast.Continue, ast.Delete, ast.FunctionDef, ast.Lambda)):
+                return None
+            if isinstance(node, ast.Name) and node.id == name and not isinstance(node.ctx, ast.Load):
+                return None
+            if isinstance(node, ast.Call) and isinstance(node.func, ast.Attribute) and ast.unparse(node.func.value) == seq:
+                return None   # a method of the sequence itself may change its length
+    if _names(prev.value, name) or _names(stop, name):
+        return None
+    inside = _names(loop, name) + 1
+    if _names(func, name) != inside:
+        return None   # read again after the loop, where the two spellings leave different values
+    new = ast.For(target=ast.copy_location(ast.Name(id=name, ctx=ast.Store()), prev.targets[0]),
+                  iter=ast.copy_location(ast.Call(func=ast.Name(id="range", ctx=ast.Load()), args=[prev.value, stop], keywords=[]),
+                                         loop.test),
+                  body=body, orelse=[])
+    return ast.copy_location(new, loop)
+
+
+def _chain_as_nested(func: ast.AST, loop: ast.stmt) -> Optional[ast.For]:
+    """ `for x in chain.from_iterable(E for v in S): body` is `for v in S: for x in E: body` (no break, no else) """
+    if not (isinstance(loop, ast.For) and not loop.orelse and isinstance(loop.iter, ast.Call) and len(loop.iter.args) == 1
+            and not loop.iter.keywords and ast.unparse(loop.iter.func) in ("itertools.chain.from_iterable", "chain.from_iterable")):
+        return None
+    gen = loop.iter.args[0]
+    if not (isinstance(gen, (ast.GeneratorExp, ast.ListComp)) and len(gen.generators) == 1 and not gen.generators[0].is_async
+            and isinstance(gen.generators[0].target, ast.Name)):
+        return None
+    comp = gen.generators[0]
+    if any(isinstance(n, (ast.Break, ast.NamedExpr)) for st in loop.body for n in ast.walk(st)):
+        return None
+    if _names(func, comp.target.id) != _names(gen, comp.target.id):
+        return None   # the generator's variable would collide with a local
+    inner: ast.stmt = ast.copy_location(ast.For(target=loop.target, iter=gen.elt, body=loop.body, orelse=[]), loop)
+    for test in reversed(comp.ifs):
+        inner = ast.copy_location(ast.If(test=test, body=[inner], orelse=[]), loop)
+    outer = ast.For(target=comp.target, iter=comp.iter, body=[inner], orelse=[])
+    return ast.copy_location(outer, loop)
+
+
+def _loops(func: ast.AST, stmts: List[ast.stmt]) -> List[ast.stmt]:
+    out: List[ast.stmt] = []
+    for stmt in stmts:
+        if isinstance(stmt, (ast.FunctionDef, ast.AsyncFunctionDef)):
+            stmt.body = _loops(stmt, stmt.body)
+            out.append(stmt)
+            continue
+        if isinstance(stmt, ast.ClassDef):
+            stmt.body = _loops(stmt, stmt.body)
+            out.append(stmt)
+            continue
+        if out:
+            merged = _while_as_for(func, out[-1], stmt)
+            if merged is not None:
+                out.pop()
+                stmt = merged
+        nested = _chain_as_nested(func, stmt)
+        if nested is not None:
+            stmt = nested
+        for field in ("body", "orelse", "finalbody"):
+            sub = getattr(stmt, field, None)
+            if isinstance(sub, list) and sub and isinstance(sub[0], ast.stmt):
+                setattr(stmt, field, _loops(func, sub))
+        for handler in getattr(stmt, "handlers", []) or []:
+            handler.body = _loops(func, handler.body)
+        out.append(stmt)
+    return out
+
+
 def desugar(tree: ast.Module) -> ast.Module:
-    tree.body = _block(tree.body)
+    tree.body = _loops(tree, _block(tree.body))
     ast.fix_missing_locations(tree)
     return tree
 
